@@ -18,22 +18,23 @@ import (
 )
 
 type vfGateEnv struct {
-	sc         *vfScope
-	tr         *vfTracer
-	node       *vfNode
-	s          *Session
-	conn       *Conn
-	mc         *vfMemConn
-	connID     int
-	wireBase   int
-	proto      int
-	nextReq    int64
-	wg         sync.WaitGroup
-	hold       map[string]bool // tokens the node must not answer until told
-	mu         sync.Mutex
-	pend       map[string]func()
-	pendStream map[string]int
-	rets       sync.Map // request id -> returned
+	sc          *vfScope
+	tr          *vfTracer
+	node        *vfNode
+	s           *Session
+	conn        *Conn
+	mc          *vfMemConn
+	connID      int
+	wireBase    int
+	proto       int
+	nextReq     int64
+	wg          sync.WaitGroup
+	hold        map[string]bool // tokens the node must not answer until told
+	mu          sync.Mutex
+	pend        map[string]func()
+	pendStream  map[string]int
+	rets        sync.Map // request id -> returned
+	useDeadline bool
 }
 
 // vfGateObserver is a StreamObserver whose callbacks are also gate points (they run inside
@@ -191,11 +192,22 @@ func (e *vfGateEnv) answerNow(tok string) {
 // start launches one request; returns its id, token and a cancel function. Fate "buildfail"
 // makes the frame builder fail (the request is never written).
 func (e *vfGateEnv) start(fate string, cancellable bool) (int, string, context.CancelFunc) {
+	return e.startWith(fate, cancellable, 0)
+}
+
+// startWith: deadline > 0 gives the request a context that expires by itself after that long
+// (context.DeadlineExceeded instead of context.Canceled).
+func (e *vfGateEnv) startWith(fate string, cancellable bool, deadline time.Duration) (int, string, context.CancelFunc) {
 	id := int(atomic.AddInt64(&e.nextReq, 1))
 	tok := fmt.Sprintf("tok_%d_%s", id, fate)
 	ctx := vfWithReq(context.Background(), id)
 	cancel := func() {}
-	if cancellable {
+	if deadline > 0 {
+		var c context.CancelFunc
+		ctx, c = context.WithTimeout(ctx, deadline)
+		cancel = c
+		time.AfterFunc(deadline, func() { e.tr.Emit("env_cancel", "req", id) })
+	} else if cancellable {
 		var c context.CancelFunc
 		ctx, c = context.WithCancel(ctx)
 		cancel = func() { e.tr.Emit("env_cancel", "req", id); c() }
@@ -540,34 +552,8 @@ var vfGateScenarios = map[string]func(e *vfGateEnv) string{
 	// C07: "a request whose context ended before writing began leaves no bytes": a write is stuck in the
 	// socket (the peer stopped reading in the middle of a frame), a second request waits for the writer,
 	// its context ends during that wait; only after it has returned (or 1.5 s) does the socket drain
-	"cancel_while_writer_blocked": func(e *vfGateEnv) string {
-		hold, held := make(chan struct{}), make(chan struct{})
-		e.mc.SetFault(&vfWriteFault{FailAtByte: -1, StallAtByte: -1, HoldAtByte: int64(len(e.mc.Written())) + 5, Hold: hold, Held: held})
-		e.start("prompt", false)
-		select {
-		case <-held:
-		case <-time.After(vfGateWait):
-			close(hold)
-			return "the first write did not reach the socket"
-		}
-		e.tr.Emit("env_held", "conn", e.connID)
-		id, _, cancel := e.start("prompt", true)
-		gw := e.sc.gates.Arm("x_wbegin", id)
-		if !gw.AwaitReached(vfGateWait) {
-			close(hold)
-			return "second request did not reach its write"
-		}
-		gw.Release()
-		time.Sleep(3 * time.Millisecond) // it now waits for the writer
-		cancel()
-		e.awaitRet(id, 1500*time.Millisecond)
-		e.tr.Emit("env_unhold", "conn", e.connID)
-		close(hold)
-		for i := 0; i < 3; i++ {
-			e.start("prompt", false)
-		}
-		return ""
-	},
+	"cancel_while_writer_blocked":   func(e *vfGateEnv) string { return vfGateWriterBlocked(e, false) },
+	"deadline_while_writer_blocked": func(e *vfGateEnv) string { return vfGateWriterBlocked(e, true) },
 	// C01: "each caller receives the response the server sent for its own request": two requests are flushed
 	// in one coalesced batch; the socket takes the first frame whole and stalls on the second, so the node
 	// answers the first request while its caller still waits for the flush to be reported (longer than the
@@ -641,18 +627,68 @@ var vfGateScenarios = map[string]func(e *vfGateEnv) string{
 	},
 }
 
+func vfGateWriterBlocked(e *vfGateEnv, useDeadline bool) string {
+	e.useDeadline = useDeadline
+	return vfGateWriterBlockedBody(e)
+}
+
+func vfGateWriterBlockedBody(e *vfGateEnv) string {
+	useDeadline := e.useDeadline
+	hold, held := make(chan struct{}), make(chan struct{})
+	e.mc.SetFault(&vfWriteFault{FailAtByte: -1, StallAtByte: -1, HoldAtByte: int64(len(e.mc.Written())) + 5, Hold: hold, Held: held})
+	idA, _, _ := e.start("prompt", false)
+	select {
+	case <-held:
+	case <-time.After(vfGateWait):
+		close(hold)
+		return "the first write did not reach the socket"
+	}
+	e.tr.Emit("env_held", "conn", e.connID)
+	var id int
+	var cancel context.CancelFunc
+	if useDeadline {
+		id, _, cancel = e.startWith("prompt", false, 40*time.Millisecond)
+		defer cancel()
+	} else {
+		id, _, cancel = e.start("prompt", true)
+	}
+	gw := e.sc.gates.Arm("x_wbegin", id)
+	if !gw.AwaitReached(vfGateWait) {
+		close(hold)
+		return "second request did not reach its write"
+	}
+	gw.Release()
+	if !useDeadline {
+		time.Sleep(3 * time.Millisecond) // it now waits for the writer
+		cancel()
+	}
+	e.awaitRet(id, 1500*time.Millisecond)
+	// nothing in this scenario justifies closing the connection: the request stuck in the socket and
+	// the ones that follow get their answers
+	e.tr.Emit("env_expect_resp", "req", idA)
+	e.tr.Emit("env_unhold", "conn", e.connID)
+	close(hold)
+	e.awaitRet(idA, 3*time.Second)
+	for i := 0; i < 3; i++ {
+		idn, _, _ := e.start("prompt", false)
+		e.tr.Emit("env_expect_resp", "req", idn)
+		e.awaitRet(idn, 3*time.Second)
+	}
+	return ""
+}
+
 // TestVfConnGates writes conn_g<k>.ndjson per scenario x protocol x writer mode.
 func TestVfConnGates(t *testing.T) {
 	if vfOutDir() == "" {
 		t.Skip("VF_OUT not set")
 	}
-	names := []string{"closer_before_select", "closer_vs_giveup", "recv_vs_giveup", "late_answer_after_timeout", "two_closers", "write_after_partial", "cancel_while_queued", "cancel_while_writer_blocked", "answer_while_writing", "undo_window", "frame_before_addcall", "handshake_faults"}
+	names := []string{"closer_before_select", "closer_vs_giveup", "recv_vs_giveup", "late_answer_after_timeout", "two_closers", "write_after_partial", "cancel_while_queued", "cancel_while_writer_blocked", "deadline_while_writer_blocked", "answer_while_writing", "undo_window", "frame_before_addcall", "handshake_faults"}
 	k := 0
 	var inconclusive []string
 	for _, name := range names {
 		for _, proto := range []int{2, 4} {
 			for _, coalesce := range []bool{false, true} {
-				if name != "write_after_partial" && name != "cancel_while_queued" && name != "cancel_while_writer_blocked" && name != "answer_while_writing" && coalesce && proto == 2 {
+				if name != "write_after_partial" && name != "cancel_while_queued" && name != "cancel_while_writer_blocked" && name != "deadline_while_writer_blocked" && name != "answer_while_writing" && coalesce && proto == 2 {
 					continue
 				}
 				e, err := vfNewGateEnv("gate:"+name, proto, coalesce)
